@@ -1,5 +1,7 @@
 package ecs
 
+import "fmt"
+
 // UnsafeFilter is a filter for components.
 //
 // It is significantly slower than type-safe generic filters like [Filter2],
@@ -37,8 +39,16 @@ func (f UnsafeFilter) Exclusive() UnsafeFilter {
 }
 
 // Query returns a new query matching this filter and the given entity relation targets.
+//
+// Relation components must be relation components required by the filter, as for the generic filters.
 func (f UnsafeFilter) Query(relations ...Relation) UnsafeQuery {
 	rel := relationSlice(relations).ToRelationIDsForUnsafe(f.world, nil)
+	for i := range rel {
+		f.world.storage.checkRelationComponent(rel[i].component)
+		if !f.filter.mask.Get(rel[i].component.id) {
+			panic(fmt.Sprintf("requested relation component with ID %d was not specified in the filter", rel[i].component.id))
+		}
+	}
 	return UnsafeQuery{
 		world:     f.world,
 		filter:    f.filter,
